@@ -568,6 +568,7 @@ class HistogramND(HistogramBase):
             frequencies=frequencies,
             errors2=errors2,
             missed=missing,
+            dtype=dtype,
             **kwargs,
         )
 
